@@ -346,6 +346,28 @@ def _lifecycle_case(ev, w, plan, sib=0):
             if raw is None or json.loads(raw) != {"y": w}:
                 problems.append(("document file after clear()/reset() and a write through the second handle", raw))
             return (not problems), problems
+        if ev == 5:
+            # the job is removed through ANOTHER handle, then remove() is called on this (initialised, document not yet used) handle
+            # as well - a no-op - and then its document is written: the job is re-created and the document is exactly the write
+            other = s.pr["/p"].open_job({"a": 0})
+            if sib:
+                job = s.pr["/p"].open_job(id=old_id)        # a handle from a look-up by id (directory known to exist)
+            other.remove()
+            job.remove()
+            ctx = None
+            if plan:
+                ctx = signac.buffered()
+                ctx.__enter__()
+            job.document["y"] = w
+            inside = dict(job.document())
+            if ctx:
+                ctx.__exit__(None, None, None)
+            raw = s.fs.get(f"/p/workspace/{old_id}/signac_job_document.json")
+            if inside != {"y": w} or raw is None or json.loads(raw) != {"y": w}:
+                problems.append(("document after remove() through two handles and a write", inside, raw))
+            if dict(s.pr["/p"].open_job({"a": 0}).document()) != {"y": w}:
+                problems.append(("fresh handle does not see the document",))
+            return (not problems), problems
         ctx = None
         if plan:
             ctx = signac.buffered()
@@ -382,10 +404,10 @@ def _lifecycle_case(ev, w, plan, sib=0):
 
 
 def h_lifecycle(ev: int, w: int, plan: int, sib: bool):
-    assert 0 <= ev <= 4 and 0 <= w <= 1 and 0 <= plan <= 1 and (ev != 2 or not sib)
+    assert 0 <= ev <= 5 and 0 <= w <= 1 and 0 <= plan <= 1 and (ev != 2 or not sib)
     assert not (ev in (1, 2) and plan == 1)  # a state point change inside a buffered block is not a document operation (outside the claim; see DESIGN §6)
     fresh_path()
-    ev, w, plan, sib = ci(ev, 0, 4), ci(w, 0, 1), ci(plan, 0, 1), cb(sib)
+    ev, w, plan, sib = ci(ev, 0, 5), ci(w, 0, 1), ci(plan, 0, 1), cb(sib)
     with nt():
         r = _lifecycle_case(ev, w, plan, sib)
     reached()
